@@ -1691,7 +1691,7 @@ pub mod cs {
     CacheCfg {
       capacity: None,
       policy: "default".into(),
-      shards: *rng.pick(&[1usize, 1, 2, 4, 8]),
+      shards: *rng.pick(&[1usize, 1, 2, 3, 4, 6, 8]),
       ttl,
       tti,
       grace,
